@@ -14,6 +14,19 @@ package search
 // version served them. File modification times are set by the harness
 // (logical clock): every write is visible to the watcher's mtime comparison.
 //
+// Held calls (action "hold", both parts): one Search / StreamSearch /
+// List(query) is stopped at a point the harness controls after it has started
+// - a call of the StreamSearch sender (the first one comes right after the
+// shard list was taken, later ones between shards), or the n-th time the call
+// consults the context it was given - and while it is stopped, shard files are
+// replaced / removed / given a sidecar, the watcher scans (unloading them),
+// and one to three garbage collections are forced, each followed by a wait
+// for the finalizer queue (the deferred close of unloaded shards is a
+// finalizer). Then the call continues. It must finish without error or
+// crashed shard and show, per repository, the complete documents of the shard
+// version loaded before or after that scan; the process dying on unmapped
+// shard memory is reported through the case journal.
+//
 // Part (b), stress (cases with Stress=true, labelled mode:stress): the same
 // actions while goroutines search and list continuously, a scanner goroutine
 // calls scan() in a loop and runtime.GC() is forced (finalizer munmap of the
@@ -49,7 +62,7 @@ import (
 )
 
 type c19Op struct {
-	// K: write | delete | meta | scan | search | list | gc
+	// K: write | delete | meta | scan | search | list | gc | hold
 	K string
 	// write: repository index and the format version in the file name
 	R int `json:",omitempty"`
@@ -61,6 +74,24 @@ type c19Op struct {
 	// write: the new file gets an mtime *older* than every earlier one (a
 	// restored file); its sidecar is dropped
 	Old bool `json:",omitempty"`
+
+	// hold: one search or listing that is kept in flight while the directory
+	// changes. Via says which call and through which of its callbacks the
+	// harness gets control:
+	//   stream      StreamSearch, at its At-th call of the sender (0 = the
+	//               first one, made after the shard list was taken and before
+	//               any shard is searched; later ones come between shards)
+	//   stream-ctx  StreamSearch,   |  at the At-th time the call consults its
+	//   search      Search,         |  context (Done / Err / Value / Deadline,
+	//   listq       List(query),    |  counted from the start of the call)
+	// At that point the harness applies the directory actions During, lets the
+	// watcher scan (so replaced / removed shards are unloaded), forces GCs
+	// garbage collections and waits for the finalizer queue to drain; only then
+	// does the call continue.
+	Via    string  `json:",omitempty"`
+	At     int     `json:",omitempty"`
+	GCs    int     `json:",omitempty"`
+	During []c19Op `json:",omitempty"`
 }
 
 type c19Case struct {
@@ -281,6 +312,14 @@ type c19Served struct {
 	metaCV, metaSV int // what List reports; metaSV < 0: no sidecar
 }
 
+// c19Ats are the context consultations at which a held call can be stopped.
+// On this tree a Search / StreamSearch / List(query) consults the context it
+// was given 6 to 9 times (tracing looks values up, WithCancel and the
+// per-shard search ask for Done; see the evidence fields
+// hold_callbacks_or_context_consultations/<via>), about half of them before
+// it takes the shard list: the middle of the range gets extra weight.
+var c19Ats = []int{4, 5, 6, 0, 1, 2, 3, 4, 5, 6, 7, 8, 9, 10, 11, 5}
+
 const c19MaxReadable = 17 // max(index.IndexFormatVersion, index.NextIndexFormatVersion), asserted in the test
 
 // c19Expected applies the watcher's documented rule to the model of the
@@ -326,6 +365,9 @@ type c19Env struct {
 	pending map[string]bool // files replaced while loaded, not yet rescanned
 	skipped int
 	gcTime  time.Duration
+
+	holdTicks map[string]int64 // per Via: callbacks / context consultations seen
+	gcLost    int
 }
 
 var c19Base = time.Unix(1_700_000_000, 0)
@@ -525,13 +567,19 @@ func c19Search(ss *shardedSearcher) (map[int]int, error) {
 	if res.Stats.Crashes != 0 {
 		return nil, kit.Fail("crash", "search reported %d crashed shard(s)", res.Stats.Crashes)
 	}
+	return c19Versions(res.Files)
+}
+
+// c19Versions judges the files of one result: per repository the one version
+// they come from, with that version's complete document set.
+func c19Versions(files []zoekt.FileMatch) (map[int]int, error) {
 	type seen struct {
 		ver  int
 		docs map[int]bool
 	}
 	by := map[int]*seen{}
-	for i := range res.Files {
-		d, err := c19Parse(&res.Files[i])
+	for i := range files {
+		d, err := c19Parse(&files[i])
 		if err != nil {
 			return nil, err
 		}
@@ -659,7 +707,9 @@ func c19Base2(ps []string) []string {
 	return out
 }
 
-func (e *c19Env) scanAndCheck(when string) error {
+// scanBook lets the watcher scan and brings the model up to date; it checks
+// the loaded set only (no search).
+func (e *c19Env) scanBook(when string) error {
 	if err := e.dw.scan(); err != nil {
 		return kit.Fail("scan-error", "%s: %v", when, err)
 	}
@@ -676,13 +726,290 @@ func (e *c19Env) scanAndCheck(when string) error {
 	} else {
 		e.label("scan:nothing-to-do")
 	}
-	if err := e.checkLoadedSet(when, want); err != nil {
+	return e.checkLoadedSet(when, want)
+}
+
+func (e *c19Env) scanAndCheck(when string) error {
+	if err := e.scanBook(when); err != nil {
 		return err
 	}
-	if err := e.checkSearch(when, want); err != nil {
+	if err := e.checkSearch(when, e.loaded); err != nil {
 		return err
 	}
-	return e.checkList(when, want)
+	return e.checkList(when, e.loaded)
+}
+
+// ---------------------------------------------------------------------------
+// hold: one call kept in flight across a reload and a garbage collection
+
+// c19Hook fires once, at the at-th tick.
+type c19Hook struct {
+	at    int64
+	n     atomic.Int64
+	fired atomic.Bool
+	fire  func()
+}
+
+func (h *c19Hook) tick() {
+	if h.n.Add(1)-1 == h.at {
+		h.fired.Store(true)
+		h.fire()
+	}
+}
+
+// c19HookCtx is a context that is never cancelled and carries nothing; every
+// consultation is a tick of the hook. Contexts derived from it by the code
+// under test (WithCancel, WithValue) pass Value lookups, and some of them
+// Done, up to it.
+type c19HookCtx struct {
+	context.Context
+	h *c19Hook
+}
+
+func (c *c19HookCtx) Done() <-chan struct{}       { c.h.tick(); return nil }
+func (c *c19HookCtx) Err() error                  { c.h.tick(); return nil }
+func (c *c19HookCtx) Value(any) any               { c.h.tick(); return nil }
+func (c *c19HookCtx) Deadline() (time.Time, bool) { c.h.tick(); return time.Time{}, false }
+
+type c19Held struct {
+	list    bool
+	files   []zoekt.FileMatch
+	repos   []*zoekt.RepoListEntry
+	crashes int
+	err     error
+	fired   bool
+	ticks   int64
+}
+
+// c19RunHeld makes one call on the searcher and runs fire at the chosen
+// callback / context consultation of that call.
+func c19RunHeld(ss *shardedSearcher, via string, at int, fire func()) c19Held {
+	h := &c19Hook{at: int64(at), fire: fire}
+	opts := &zoekt.SearchOptions{Whole: true}
+	var out c19Held
+	hctx := &c19HookCtx{Context: context.Background(), h: h}
+	switch via {
+	case "stream", "stream-ctx":
+		var ctx context.Context = context.Background()
+		if via == "stream-ctx" {
+			ctx = hctx
+		}
+		var mu sync.Mutex
+		out.err = ss.StreamSearch(ctx, c19Query, opts, zoekt.SenderFunc(func(sr *zoekt.SearchResult) {
+			mu.Lock()
+			defer mu.Unlock()
+			out.files = append(out.files, sr.Files...)
+			out.crashes += sr.Stats.Crashes
+			if via == "stream" {
+				h.tick()
+			}
+		}))
+	case "search":
+		res, err := ss.Search(hctx, c19Query, opts)
+		out.err = err
+		if res != nil {
+			out.files, out.crashes = res.Files, res.Stats.Crashes
+		}
+	default: // listq
+		out.list = true
+		rl, err := ss.List(hctx, c19Query, nil)
+		out.err = err
+		if rl != nil {
+			out.repos, out.crashes = rl.Repos, rl.Crashes
+		}
+	}
+	out.fired, out.ticks = h.fired.Load(), h.n.Load()
+	return out
+}
+
+type c19Sentinel struct{ p *int }
+
+//go:noinline
+func c19ArmSentinel() chan struct{} {
+	ch := make(chan struct{})
+	runtime.SetFinalizer(&c19Sentinel{p: new(int)}, func(*c19Sentinel) { close(ch) })
+	return ch
+}
+
+// c19Collect forces rounds garbage collections. After each it waits until a
+// finalizer armed just before the collection has run (finalizers run one
+// after the other on one goroutine: from the second round on, everything the
+// first collection found unreachable has been finalized), then yields.
+func c19Collect(rounds int) (lost int) {
+	for i := 0; i < rounds; i++ {
+		ch := c19ArmSentinel()
+		runtime.GC()
+		select {
+		case <-ch:
+		case <-time.After(5 * time.Second): // watchdog only
+			lost++
+		}
+		runtime.Gosched()
+		time.Sleep(time.Millisecond)
+	}
+	return lost
+}
+
+func c19WantMeta(s c19Served) string {
+	m := map[string]string{"cv": c19VerStr(s.metaCV)}
+	if s.metaSV >= 0 {
+		m["sv"] = strconv.Itoa(s.metaSV)
+	}
+	return fmt.Sprint(m)
+}
+
+// c19JudgeHeld judges the outcome of a call that was in flight while the
+// loaded set went from before to after (one scan): no error, no crashed
+// shard, and per repository the complete results of the shard version of
+// before or of after; a repository may be absent only if one of the two
+// states does not have it. It returns how many repositories were served from
+// a shard that the scan unloaded.
+func c19JudgeHeld(when string, r c19Held, before, after map[string]c19Served) (fromUnloaded int, err error) {
+	if r.err != nil {
+		return 0, kit.Fail("search-error", "%s: %v", when, r.err)
+	}
+	if r.crashes != 0 {
+		return 0, kit.Fail("crash", "%s: the call reported %d crashed shard(s)", when, r.crashes)
+	}
+	b, a := c19Served2Repos(before), c19Served2Repos(after)
+	got := map[int]bool{}
+	if !r.list {
+		vers, err := c19Versions(r.files)
+		if err != nil {
+			if d, ok := err.(*kit.Discrepancy); ok {
+				d.Detail = when + ": " + d.Detail
+			}
+			return 0, err
+		}
+		for repo, v := range vers {
+			got[repo] = true
+			sb, inB := b[repo]
+			sa, inA := a[repo]
+			switch {
+			case !inB && !inA:
+				return 0, kit.Fail("ghost-repository", "%s: results for r%d (version %d), which had no loadable shard before or after the reload", when, repo, v)
+			case inB && sb.cv == v:
+				if !inA || sa.cv != v {
+					fromUnloaded++
+				}
+			case inA && sa.cv == v:
+			default:
+				return 0, kit.Fail("wrong-version", "%s: r%d served from version %d; loaded before the reload: %s, after: %s", when, repo, v, c19VerOf(b, repo), c19VerOf(a, repo))
+			}
+		}
+	} else {
+		for _, e := range r.repos {
+			id := int(e.Repository.ID) - 1
+			sb, inB := b[id]
+			sa, inA := a[id]
+			if (!inB && !inA) || e.Repository.Name != fmt.Sprintf("r%d", id) {
+				return 0, kit.Fail("ghost-repository", "%s: List returned %s (id %d), which had no loadable shard before or after the reload", when, e.Repository.Name, e.Repository.ID)
+			}
+			if got[id] {
+				return 0, kit.Fail("duplicate-repository", "%s: List returned r%d twice", when, id)
+			}
+			got[id] = true
+			okB := inB && e.Stats.Documents == c19NumDocs(id, sb.cv) && fmt.Sprint(e.Repository.Metadata) == c19WantMeta(sb)
+			okA := inA && e.Stats.Documents == c19NumDocs(id, sa.cv) && fmt.Sprint(e.Repository.Metadata) == c19WantMeta(sa)
+			switch {
+			case okB:
+				if !inA || sa.cv != sb.cv {
+					fromUnloaded++
+				}
+			case okA:
+			default:
+				return 0, kit.Fail("wrong-version", "%s: List shows r%d with %d documents and metadata %v; loaded before the reload: %s, after: %s", when, id, e.Stats.Documents, e.Repository.Metadata, c19VerOf(b, id), c19VerOf(a, id))
+			}
+		}
+	}
+	for repo := range b {
+		if _, ok := a[repo]; ok && !got[repo] {
+			return 0, kit.Fail("missing-repository", "%s: nothing for r%d, which has a loaded shard before (%s) and after (%s) the reload", when, repo, c19VerOf(b, repo), c19VerOf(a, repo))
+		}
+	}
+	return fromUnloaded, nil
+}
+
+func c19VerOf(m map[int]c19Served, repo int) string {
+	s, ok := m[repo]
+	if !ok {
+		return "none"
+	}
+	return fmt.Sprintf("version %d", s.cv)
+}
+
+func (e *c19Env) holdLabels(op c19Op, r c19Held) {
+	e.label("hold:via-" + op.Via)
+	if !r.fired {
+		e.label("hold:callback-not-reached")
+	}
+	if e.holdTicks == nil {
+		e.holdTicks = map[string]int64{}
+	}
+	e.holdTicks[op.Via] += r.ticks
+}
+
+// holdDeterministic: the call is made on this goroutine; at its chosen
+// callback the directory changes, the watcher scans, garbage is collected and
+// finalizers run; then the call continues.
+func (e *c19Env) holdDeterministic(op c19Op, nrepos int, when string) error {
+	before := e.loaded
+	var hookErr error
+	unloaded := 0
+	change := func() {
+		for _, d := range op.During {
+			ok, err := e.fsOp(d, nrepos)
+			if err != nil {
+				hookErr = err
+				return
+			}
+			if !ok {
+				e.skipped++
+			}
+		}
+		if hookErr = e.scanBook(when + ", scan while the call is in flight"); hookErr != nil {
+			return
+		}
+		for p, s := range before {
+			if n, ok := e.loaded[p]; !ok || n.cv != s.cv {
+				unloaded++
+			}
+		}
+		t0 := time.Now()
+		e.gcLost += c19Collect(op.GCs)
+		e.gcTime += time.Since(t0)
+	}
+	r := c19RunHeld(e.ss, op.Via, op.At, change)
+	if !r.fired {
+		change()
+	}
+	e.holdLabels(op, r)
+	if hookErr != nil {
+		return hookErr
+	}
+	if r.fired && unloaded > 0 {
+		e.label("hold:loaded-shard-unloaded-in-flight")
+	}
+	after := e.loaded
+	if !r.fired {
+		// the call ran to completion before the directory changed
+		after = before
+	}
+	n, err := c19JudgeHeld(when, r, before, after)
+	if err != nil {
+		return err
+	}
+	if n > 0 {
+		// the call really read a shard after it was unloaded and garbage collected
+		e.label("hold:served-from-unloaded-shard")
+		e.nt = true
+	} else if r.fired && unloaded > 0 {
+		e.label("hold:served-state-after-reload")
+	}
+	if err := e.checkSearch(when+", afterwards", e.loaded); err != nil {
+		return err
+	}
+	return e.checkList(when+", afterwards", e.loaded)
 }
 
 // ---------------------------------------------------------------------------
@@ -720,6 +1047,12 @@ func runC19(rec *kit.Recorder, c c19Case) (err error) {
 	if e.skipped > 0 {
 		rec.Add("ops_not_applicable", e.skipped)
 	}
+	for via, n := range e.holdTicks {
+		rec.Add("hold_callbacks_or_context_consultations/"+via, int(n))
+	}
+	if e.gcLost > 0 {
+		rec.Add("hold_finalizer_wait_timed_out", e.gcLost)
+	}
 	key, _ := json.Marshal(c)
 	rec.Eval(string(key), e.nt, ls...)
 	rec.Sample(c, e.nt)
@@ -752,6 +1085,10 @@ func (e *c19Env) deterministic(c *c19Case) error {
 		case "list":
 			e.label("list")
 			if err := e.checkList(when, e.loaded); err != nil {
+				return err
+			}
+		case "hold":
+			if err := e.holdDeterministic(op, c.Repos, when); err != nil {
 				return err
 			}
 		case "gc":
@@ -938,6 +1275,35 @@ func (e *c19Env) stress(rec *kit.Recorder, c *c19Case) error {
 				if err := waitFor(&gcs, 1, "garbage collection"); err != nil {
 					return err
 				}
+			case "hold":
+				// one more call, made from here, that is held at its chosen callback
+				// while the directory changes, the scanner goroutine picks the change
+				// up and garbage is collected
+				var hookErr error
+				change := func() {
+					for _, d := range op.During {
+						if _, err := e.fsOp(d, c.Repos); err != nil {
+							hookErr = err
+							return
+						}
+					}
+					e.loaded = c19Expected(e.disk)
+					if hookErr = waitFor(&scans, 2, "scan"); hookErr != nil {
+						return
+					}
+					e.gcLost += c19Collect(op.GCs)
+				}
+				r := c19RunHeld(e.ss, op.Via, op.At, change)
+				if !r.fired {
+					change()
+				}
+				e.holdLabels(op, r)
+				if hookErr != nil {
+					return hookErr
+				}
+				if err := e.judgeHeldStress(r, c.Repos); err != nil {
+					return err
+				}
 			default:
 				if _, err := e.fsOp(op, c.Repos); err != nil {
 					return err
@@ -995,6 +1361,38 @@ func (e *c19Env) stress(rec *kit.Recorder, c *c19Case) error {
 	return nil
 }
 
+// judgeHeldStress: the stress oracles (no crash, per repository one
+// ever-written version with its complete document set) for a held call.
+func (e *c19Env) judgeHeldStress(r c19Held, nrepos int) error {
+	if r.err != nil {
+		return kit.Fail("search-error", "stress, held call: %v", r.err)
+	}
+	if r.crashes != 0 {
+		return kit.Fail("crash", "stress, held call reported %d crashed shard(s)", r.crashes)
+	}
+	if r.list {
+		names := map[string]bool{}
+		for _, en := range r.repos {
+			id := int(en.Repository.ID) - 1
+			if id < 0 || id >= nrepos || en.Repository.Name != fmt.Sprintf("r%d", id) || names[en.Repository.Name] {
+				return kit.Fail("ghost-repository", "stress, held List returned %q (id %d), duplicate=%v", en.Repository.Name, en.Repository.ID, names[en.Repository.Name])
+			}
+			names[en.Repository.Name] = true
+		}
+		return nil
+	}
+	got, err := c19Versions(r.files)
+	if err != nil {
+		return err
+	}
+	for repo, v := range got {
+		if repo < 0 || repo >= nrepos || int64(v) > e.vers[repo].Load() || v < 1 {
+			return kit.Fail("ghost-version", "stress, held call: r%d served from version %d which was never written", repo, v)
+		}
+	}
+	return nil
+}
+
 // ---------------------------------------------------------------------------
 
 func genC19(rt *rapid.T) c19Case {
@@ -1009,10 +1407,15 @@ func genC19(rt *rapid.T) c19Case {
 		"write", "write", "write", "write", "write", "write", "write", "scan", "scan", "scan", "scan", "meta", "meta", "search", "search", "delete", "list",
 		"write", "write", "write", "write", "write", "write", "write", "scan", "scan", "scan", "scan", "meta", "meta", "search", "search", "delete", "gc",
 	}
+	// one history in holdEvery ops is a held call (each costs a scan and one to
+	// three forced garbage collections)
+	holdEvery := 64
+	if v, err := strconv.Atoi(os.Getenv("VERIF_C19_HOLD_EVERY")); err == nil && v > 0 {
+		holdEvery = v
+	}
 	formats := []int{16, 16, 16, 16, 16, 16, 17, 17, 15, 18}
-	op := rapid.Custom(func(t *rapid.T) c19Op {
+	fill := func(t *rapid.T, o *c19Op) {
 		tg := kit.G{T: t}
-		o := c19Op{K: kit.Pick(tg, kinds, "op")}
 		switch o.K {
 		case "write":
 			o.R = rapid.IntRange(0, 2).Draw(t, "repo")
@@ -1022,6 +1425,28 @@ func genC19(rt *rapid.T) c19Case {
 		case "delete", "meta":
 			o.Sel = rapid.IntRange(0, 7).Draw(t, "sel")
 		}
+	}
+	during := rapid.Custom(func(t *rapid.T) c19Op {
+		o := c19Op{K: kit.Pick(kit.G{T: t}, []string{"write", "write", "write", "write", "write", "delete", "delete", "meta"}, "during")}
+		fill(t, &o)
+		return o
+	})
+	op := rapid.Custom(func(t *rapid.T) c19Op {
+		tg := kit.G{T: t}
+		o := c19Op{K: kit.Pick(tg, kinds, "op")}
+		if tg.U(holdEvery, "hold") == holdEvery-1 { // shrinks towards the plain op
+			o.K = "hold"
+			o.Via = kit.Pick(tg, []string{"stream", "stream", "stream", "search", "search", "listq", "listq", "stream-ctx"}, "via")
+			if o.Via == "stream" {
+				o.At = kit.Pick(tg, []int{0, 0, 0, 0, 1, 2}, "at")
+			} else {
+				o.At = kit.Pick(tg, c19Ats, "at")
+			}
+			o.GCs = kit.Pick(tg, []int{2, 1, 2, 3}, "gcs")
+			o.During = rapid.SliceOfN(during, 1, 3).Draw(t, "during")
+			return o
+		}
+		fill(t, &o)
 		return o
 	})
 	lo := kit.Pick(g, []int{6, 12, 20}, "minops")
@@ -1039,12 +1464,14 @@ func TestVerif_C19(t *testing.T) {
 		t.Fatalf("harness assumes index format 16 / next 17, tree has %d / %d", index.IndexFormatVersion, index.NextIndexFormatVersion)
 	}
 	rec := kit.Open(t, "C19",
-		"rapid-generated histories over a temporary index directory with 1-3 repositories: write a shard file r<i>_v<format>.00000.zoekt (format 16 mostly, 15 / 17 / unreadable 18; create, or replace by rename with a new content version, keeping or dropping the .meta sidecar, 8% with an mtime older than everything before), delete, sidecar update, scan(), search, list, forced GC; the watcher is a hand-built DirectoryWatcher around the real loader and shardedSearcher, scan() is an explicit action (no fsnotify); every document names its repository, content version and position; non-trivial = a shard file that was loaded got replaced and a scan followed; distinct by the JSON of the history; mode:stress cases (5%) run the same actions with concurrent searchers, a lister, a scanner loop and forced GC under -race",
+		"rapid-generated histories over a temporary index directory with 1-3 repositories: write a shard file r<i>_v<format>.00000.zoekt (format 16 mostly, 15 / 17 / unreadable 18; create, or replace by rename with a new content version, keeping or dropping the .meta sidecar, 8% with an mtime older than everything before), delete, sidecar update, scan(), search, list, forced GC, and (1 action in 64) a held call: a StreamSearch stopped in a call of its sender (the first, made once the shard list is taken, or a later one between shards) or a Search / StreamSearch / List(query) stopped at the n-th consultation (Done, Err, Value, Deadline) of a harness-owned context, during which 1-3 directory actions are applied, the watcher scans and 1-3 garbage collections run with a wait for the finalizer queue after each, before the call continues; the watcher is a hand-built DirectoryWatcher around the real loader and shardedSearcher, scan() is an explicit action (no fsnotify); every document names its repository, content version and position; non-trivial = a shard file that was loaded got replaced and a scan followed, or a held call was served from a shard that was unloaded and garbage collected while it was in flight; distinct by the JSON of the history; mode:stress cases (5%) run the same actions with concurrent searchers, a lister, a scanner loop and forced GC under -race",
 		"file modification times are set by the harness from a logical clock so that every write changes the mtime the watcher compares (two writes within the file system's timestamp granularity are out of scope); a file written with an older mtime has no sidecar",
 		"newest-format rule as documented in watcher.go scan(): per name prefix before the last '_', the files whose name carries the highest format version not above max(IndexFormatVersion, NextIndexFormatVersion); one shard file per repository",
 		"shards are deleted together with their sidecar; sidecars are never removed on their own",
 		"the shard of (repository, content version) is a copy of one of two shards written by index.NewShardBuilder with fixed-width placeholders (repository digit, 4-digit version) overwritten in content and repository metadata; the construction is validated through index.NewSearcher before any history runs (building every shard afresh costs tens of seconds each under the race detector)",
 		"between scans the state of the last scan is served (nothing else triggers a reload in this setup)",
+		"a held call overlaps exactly one scan: per repository it must show the complete shard version loaded before or after that scan (either is accepted, whichever side of the scan the call took its shard list on), and may omit a repository only if one of the two states has no shard for it; in stress mode held calls get the stress oracles only; a held call whose chosen stopping point is never reached runs to completion and the directory actions are applied afterwards (label hold:callback-not-reached)",
+		"garbage collection in a held call: runtime.GC() followed by waiting for a finalizer armed just before it (finalizers run sequentially, so from the second round on everything the first collection found unreachable has been finalized), a yield and a 1 ms pause; a shard that is closed while the held call still has it in its shard list faults on unmapped memory, which kills the process and is reported through the journal",
 		"stress mode asserts per search result only: no crash, each repository from exactly one ever-written version with that version's complete, intact document set (a repository may be absent: scan() drops before it loads); convergence is asserted after the directory stopped changing and one more scan ran",
 	)
 	t0 := time.Now()
